@@ -226,15 +226,27 @@ fn on_point(p: &Point) {
                     a.pushes += 1;
                     match (*via, *full) {
                         ("replay", true) => {
+                            // the replay failed: a forced value is parked behind, a plain one is dropped
+                            let cids = a.last_cids.iter().map(|c| cid_out(*c)).collect::<Vec<_>>();
                             if !a.last_forced {
                                 a.refused = true;
+                                ev = Some(json!({"ev":"refuse","t":t,"kind":a.last_kind,"cids":cids}));
+                            } else {
+                                ev = Some(json!({"ev":"park","t":t,"kind":a.last_kind,"cids":cids}));
                             }
                         }
                         ("replay", false) => {
                             ev = Some(json!({"ev":"push","t":t,"kind":"replay","cids":[]}));
                         }
-                        ("send", true) => a.refused = true,
-                        ("force", true) => {}
+                        ("send", true) => {
+                            a.refused = true;
+                            ev = Some(json!({"ev":"refuse","t":t,"kind":a.last_kind,
+                                "cids":a.last_cids.iter().map(|c| cid_out(*c)).collect::<Vec<_>>()}));
+                        }
+                        ("force", true) => {
+                            ev = Some(json!({"ev":"park","t":t,"kind":a.last_kind,
+                                "cids":a.last_cids.iter().map(|c| cid_out(*c)).collect::<Vec<_>>()}));
+                        }
                         ("send", false) | ("force", false) => {
                             ev = Some(json!({"ev":"push","t":t,"kind":a.last_kind,
                                 "cids":a.last_cids.iter().map(|c| cid_out(*c)).collect::<Vec<_>>()}));
@@ -242,6 +254,7 @@ fn on_point(p: &Point) {
                         ("exit", true) => {
                             *pk = pk.saturating_sub(1);
                             a.dropped = true;
+                            ev = Some(json!({"ev":"exitdrop","t":t}));
                         }
                         ("exit", false) => {
                             *pk = pk.saturating_sub(1);
